@@ -126,6 +126,16 @@ def spaces(tier, seed):
                 grid2.append({"kind": "grid", "m": m, "w": w, "s": s,
                               "spec": {"ny": ny, "nx": nx, "seed": seed, "dmin": -1, "dmax": 1,
                                        "grid": [[c1[0], c1[1], d1[0], d1[1]], [c2[0], c2[1], d2[0], d2[1]]]}})
+    # tall images (more rows than an internal strip may hold) with deviations on both sides of row 512
+    for (m, w), s in (((("sad", 1), 1), (("census", 3), 2), (("zncc", 3), 1)) if not thorough else
+                      list(itertools.product(MW, (1, 2)))):
+        grid2.append({"kind": "grid", "m": m, "w": w, "s": s,
+                      "spec": {"ny": 530, "nx": w + 3, "seed": seed, "dmin": -1, "dmax": 1,
+                               "grid": [[520, 2, 0, 0], [3, 1, -1, 0], [515, 1, 1, 1], [511, 2, 0, 1]]}})
+    # disparity axes of more than 256 samples: the slice [30, 33] of the volume of [-33, 33] at subpix 4
+    wide = [{"kind": "widepair", "m": m, "w": w, "s": 4, "outer": [-33, 33], "inner": inner,
+             "spec": {"ny": w + 1, "nx": 70, "seed": seed}}
+            for (m, w) in (("sad", 3), ("ssd", 1), ("census", 3), ("zncc", 3)) for inner in ([30, 33], [-33, -31], [-1, 2])]
     seqs = post_sequences(3 if thorough else 2)
     k = seed
     for seq in seqs:
@@ -166,6 +176,8 @@ def spaces(tier, seed):
          "level": 1, "cases": refine, "chunk": 1},
         {"name": "single-scale pipelines: every post-disparity sequence, final disparity inside the interval",
          "level": 1, "cases": pipes, "chunk": 4},
+        {"name": "slices of a disparity axis longer than 256 samples ([-33, 33] at subpix 4)", "level": 1,
+         "cases": wide, "chunk": 1},
         {"name": "every pair of per-pixel interval deviations vs the scalar run", "level": 2, "cases": grid2,
          "chunk": 16},
     ]
@@ -308,6 +320,36 @@ def _dedupe(viol):
             seen.add(v["key"])
             out.append(v)
     return out
+
+
+def run_widepair(case):
+    """the volume of the inner interval equals the corresponding slice of the volume of the outer interval"""
+    m, w, s = case["m"], case["w"], case["s"]
+    viol = []
+    vols = {}
+    tag = f"{m} w={w} subpix={s} spec={case['spec']}"
+    for name in ("outer", "inner"):
+        a, b = case[name]
+        cv, _, err = compute(dict(case["spec"], dmin=a, dmax=b), m, w, s, 0)
+        if err is not None:
+            viol.append({"clause": "raises", "key": f"C09/raises/{err[0]}/{type(err[1]).__name__}",
+                         "detail": f"{tag} interval [{a},{b}]: {err[0]} raised {err[1]!r}"})
+            return {"n": 1, "sigs": [], "viol": viol}
+        vols[name] = ([float(x) for x in cv.coords["disp"].data], cv["cost_volume"].data)
+    axo, vo = vols["outer"]
+    axi, vi = vols["inner"]
+    if any(d not in axo for d in axi):
+        viol.append({"clause": "axis", "key": f"C09/axis/matching_cost/subpix{s}",
+                     "detail": f"{tag}: axis of {case['inner']} not contained in the axis of {case['outer']}"})
+        return {"n": 1, "sigs": [], "viol": viol}
+    k0 = axo.index(axi[0])
+    what = _cmp(vo[:, :, k0:k0 + len(axi)], vi)
+    if what:
+        pos, nbad = _first_diff(vo[:, :, k0:k0 + len(axi)], vi)
+        viol.append({"clause": "slice", "key": f"C09/slice/matching_cost/{what}/long-axis",
+                     "detail": f"{tag}: volume of {case['inner']} differs from the slice of the volume of "
+                               f"{case['outer']} ({len(axo)} samples) at {pos} [{nbad} cells]"})
+    return {"n": 1, "sigs": [f"wide|{m}|{w}|{case['inner']}|{_digest(vi)}"], "viol": viol}
 
 
 # ----------------------------------------------------------------------------------------------
@@ -627,6 +669,8 @@ def run_case(case):
         return run_nested(case)
     if case["kind"] == "grid":
         return run_grid(case)
+    if case["kind"] == "widepair":
+        return run_widepair(case)
     if case["kind"] == "pipe":
         return run_pipe(case)
     raise AssertionError(case["kind"])
